@@ -98,6 +98,14 @@ class Check:
         return case
 
 
+def _safe_view(check, case):
+    """A check's compact view of a case for the evidence file; a view that cannot be built must not cost the verdict."""
+    try:
+        return check.sample_view(case)
+    except Exception as exc:  # noqa: BLE001
+        return {"view_unavailable": f"{type(exc).__name__}: {exc}", "config_time": case.get("config", {}).get("time")}
+
+
 def result_template() -> dict:
     return {"violations": [], "nontrivial": False, "key": "", "counters": {}, "sim_seconds": 0.0,
             "faults": {}, "digest": "", "skipped": None, "interleaving": None, "tolerances": {},
@@ -534,13 +542,13 @@ def write_evidence_file(check, tier, seed, agg, results, cases, wall, walls, n_v
     for idx in sorted(results):
         r = results[idx]
         if r.get("nontrivial") and not r.get("skipped"):
-            samples.append({"run": idx, "case": check.sample_view(cases[idx]), "counters": r.get("counters", {}),
+            samples.append({"run": idx, "case": _safe_view(check, cases[idx]), "counters": r.get("counters", {}),
                             "interleaving": r.get("interleaving")})
         if len(samples) >= 3:
             break
     if not samples and results:
         idx = sorted(results)[0]
-        samples.append({"run": idx, "case": check.sample_view(cases[idx])})
+        samples.append({"run": idx, "case": _safe_view(check, cases[idx])})
     n = len(results)
     ev = {
         "property_id": check.pid,
